@@ -12,6 +12,7 @@ the program is an immutable value.
 -/
 import Anko.Gen.AstWrites
 import Anko.Model.Eval
+import Anko.Proofs.EvalFuel
 
 namespace Anko.C14
 open Anko
@@ -33,6 +34,21 @@ from equal fresh states give the same value, error status, probe trace and bindi
 has nowhere else to look). -/
 theorem run_deterministic (fuel : Nat) (p : Stmt) (s1 s2 : St) (h : s1 = s2) :
     runProgram fuel p s1 = runProgram fuel p s2 := by rw [h]
+
+/-- ... and the answer is a property of the program, not of the bound the model is run with:
+whenever a run ends inside the modelled fragment (the "unsupported / out of fuel" marker is not
+set) every larger fuel gives the identical final state - value, error status, trace, bindings
+(Anko.Proofs.EvalFuel: induction on fuel through all 28 functions of the evaluator, with the
+stickiness of the marker from Anko.Proofs.EvalSticky). -/
+theorem answer_is_fuel_independent (fuel extra : Nat) (p : Stmt) (s : St) (h : (runProgram fuel p s).unsup = none) :
+    runProgram (fuel + extra) p s = runProgram fuel p s := fuel_runProgram fuel extra p s h
+
+/-- the same for every function of the evaluator -/
+theorem every_function_fuel_independent (n : Nat) : FuelIH n := fuel_all n
+
+/-- the marker is never cleared: a run that left the modelled fragment stays marked -/
+theorem unsupported_marker_is_sticky (fuel : Nat) (st : Stmt) (s : St) (h : s.unsup ≠ none) : (execStmt fuel st s).unsup ≠ none :=
+  (stick_all fuel).execStmt st s h
 
 /-- Executing a program hands back a state; the program itself is not part of what changes:
 running it again from the same state is the same run. -/
